@@ -260,14 +260,15 @@ if not (g1 and g2) or g1["run_space_launch_id"] == g2["run_space_launch_id"]:
     fail("launch-id:generated-ids-repeat")
 
 # ---- inputs id ---------------------------------------------------------------------------------------------------------------
-def inputs_case(content, touch=False):
+def inputs_case(content, touch=False, inline_first=False):
     global evaluations
     evaluations += 1
     d = root / "inputs"
     d.mkdir(exist_ok=True)
     (d / "runs.csv").write_text(content)
     cfg = d / "p.yaml"
-    cfg.write_text(HEAD + nodes_yaml("source-multiply-sink") + "run_space:\n  blocks:\n    - mode: by_position\n      source:\n        format: csv\n        path: runs.csv\n")
+    first = "    - mode: by_position\n      context:\n        note: [\"x\"]\n" if inline_first else ""
+    cfg.write_text(HEAD + nodes_yaml("source-multiply-sink") + "run_space:\n  blocks:\n" + first + "    - mode: by_position\n      source:\n        format: csv\n        path: runs.csv\n")
     shutil.rmtree(d / "trace", ignore_errors=True)
     code, out, err = run_cli(["run", str(cfg), "--trace.driver", "jsonl", "--trace.output", str(d / "trace"), "-q"])
     starts = [r for r in records(d / "trace") if r["record_type"] == "run_space_start"]
@@ -279,6 +280,16 @@ csv2 = f"factor,path\n2.0,{root}/inputs/o1.txt\n4.0,{root}/inputs/o2.txt\n"
 x1, e1 = inputs_case(csv1)
 x2, _ = inputs_case(csv1)
 x3, _ = inputs_case(csv2)
+# the same with a source-less block standing before the block that references the file
+y1, _ = inputs_case(csv1, inline_first=True)
+y3, _ = inputs_case(csv2, inline_first=True)
+distinct |= {("inputs-id", "source-less-block-first")}
+if not (y1 and y3):
+    fail("inputs-id:launch-with-an-inline-block-before-the-source-block-did-not-start")
+elif not y1.get("run_space_inputs_id"):
+    fail("inputs-id:absent-although-a-file-is-referenced(source-less-block-first)")
+elif y1.get("run_space_inputs_id") == y3.get("run_space_inputs_id"):
+    fail("inputs-id:unchanged-although-file-content-changed(source-less-block-first)")
 distinct |= {("inputs-id", m) for m in ("same", "rewritten-same-content", "content-changed")}
 if not (x1 and x2 and x3):
     fail("inputs-id:launch-with-a-source-file-did-not-start", stderr=e1[-300:])
